@@ -93,6 +93,10 @@ func Lists(thorough bool, variant string) []gen.ListSpec {
 		gen.EdgeLists(objs, 2, func(el []gen.EdgeSpec) {
 			out = append(out, gen.ListSpec{Nodes: idsC, Edges: el, Roots: []string{"a"}})
 		})
+	case "near-ids":
+		// identifiers that coincide under case folding or trimming: any index that normalises its keys merges them
+		ids := []string{"n", "N", "n "}
+		gen.SmallLists(ids, ids, t1, ids, 2, 1, ids[:2], func(s gen.ListSpec) { out = append(out, s) })
 	case "wide":
 		// size classes: a star with 40 leaves, the same star with the leaves in another order and split over two edge
 		// objects, a chain of 40 nodes (thresholds and capacity effects are invisible to 3-node lists)
@@ -143,7 +147,7 @@ func Run(c *engine.Ctx) {
 		}
 	}
 
-	for _, fam := range []string{"collisions", "wide"} {
+	for _, fam := range []string{"collisions", "near-ids", "wide"} {
 		F := Lists(c.Thorough(), fam)
 		c.Group(fam)
 		c.Bound(fam, fmt.Sprintf("all %d x %d ordered pairs of the %s family", len(F), len(F), fam))
